@@ -173,6 +173,10 @@ const TOP_LEVELS: &[&str] = &[
     "rules: [#RULE#], apply_to_files: '**/a/*'",
     "rules: [#RULE#], skip_files: ['**/b/*', '**/x.lua']",
     "rules: [#RULE#], apply_to_files: ['src/**'], skip_files: '**/b/*'",
+    // an empty rule list is not the default rule list
+    "rules: []",
+    "rules: [], generator: 'dense'",
+    "rules: [], bundle: {require_mode: 'path'}",
 ];
 const INVALID_TOP_LEVELS: &[&str] = &[
     "rules: [#RULE#], unknown: 1",
